@@ -86,12 +86,13 @@ def harness(tier, seed):
                         viol.append(("decode/name-or-bin", info, f"{g.name} {g.bin_width}x{g.bin_height}"))
                     if g.n_items != space.n_items:
                         viol.append(("decode/item-count", info, f"n_items={g.n_items}, template {space.n_items}"))
-                    if g.total_item_area <= (space.min_bins - 1) * bin_area or g.total_item_area > space.min_bins * bin_area:
+                    mb = int(src.lower_bound_bins)      # the template's own bin need (not what the space object says it is)
+                    if g.total_item_area <= (mb - 1) * bin_area or g.total_item_area > mb * bin_area:
                         viol.append(("decode/area-no-longer-needs-min-bins", info,
-                                     f"total item area {g.total_item_area}, min_bins={space.min_bins}, bin area {bin_area}"))
-                    elif g.lower_bound_bins != space.min_bins:
+                                     f"total item area {g.total_item_area}, template needs {mb} bins, bin area {bin_area}"))
+                    elif g.lower_bound_bins != mb:
                         viol.append(("decode/lower-bound-differs-from-min-bins", info,
-                                     f"lower_bound_bins={g.lower_bound_bins}, min_bins={space.min_bins}"))
+                                     f"lower_bound_bins={g.lower_bound_bins}, the template needs {mb} bins"))
                     if not (np.array_equal(np.array(g), np.array(y2[0])) and g.n_items == y2[0].n_items):
                         viol.append(("decode/not-repeatable", info, "second decoding differs"))
                     try:
